@@ -9,7 +9,7 @@ import c05
 
 LEVEL = "model_checking"
 FOCUS = "C15"
-ALL_DEVS = ("ebb_ok", "ebb_late", "ebb_old", "ebb_noversion", "ebb_in_text", "non_ebb", "silent", "unopenable", "absent", "raise_on_probe")
+ALL_DEVS = ("ebb_ok", "ebb_late", "ebb_old", "ebb_noversion", "ebb_in_text", "non_ebb", "silent", "unopenable", "absent", "raise_on_probe") + L.VERSION_DEVS
 
 
 def vs(t):
@@ -32,7 +32,7 @@ def versions_stage(ctx):
             port = ebbfake.LegacyOKPort(version=vs(v))
             got_l = ebb_serial.min_version(port, vs(t))
             obj = ebb3_serial.EBB3()
-            obj.version, obj.version_parsed = vs(v), parse(vs(v))
+            obj.parse_version(L.VERSION_LINE % vs(v))          # as connect() learns it, from the identification line
             got_3 = obj.min_version(vs(t))
             if got_l is not exp:
                 ctx.violation("version.numeric_order_legacy", {"mode": "G", "k": "order", "version": vs(v), "threshold": vs(t)}, exp, repr(got_l))
@@ -59,8 +59,23 @@ def versions_stage(ctx):
         if n % 1499 == 1:
             ctx.sample({"mode": "G", "kind": st["kind"], "version": vs(v), "threshold": vs(t), "gate": st["gate"], "expected": exp})
     os.remove(dump + ".dump")
+    # a board that reports no version at all (identifies without one, or does not answer): no gated command may go out
+    gates = {"servo_timeout": (lambda p: ebb_motion.servo_timeout(p, 60000, 1), "SR"), "query_voltage": (lambda p: ebb_motion.queryVoltage(p), "QC"),
+             "query_nickname": (lambda p: ebb_serial.query_nickname(p), "QT"), "write_nickname": (lambda p: ebb_serial.write_nickname(p, "Lab"), "ST"),
+             "reboot": (lambda p: ebb_serial.reboot(p), "RB")}
+    for g, (fn, cmd) in gates.items():
+        for ver, what in ((None, "no version in the identification line"), ("", "no answer to the version query")):
+            ctx.count(("gate_noversion", g, what))
+            port = ebbfake.LegacyOKPort(version=ver)
+            try:
+                fn(port)
+                names = [ebbfake.req_name(w) for w in port.writes]
+                if cmd in names or [x for x in names if x.upper() != "V"]:
+                    ctx.violation("version.legacy_gate_" + g, {"mode": "G", "k": "gate", "gate": g, "version": what}, {"command_sent": False}, {"writes": port.writes})
+            except Exception as ex:  # pylint: disable=broad-except
+                ctx.violation("version.legacy_gate_" + g, {"mode": "G", "k": "gate", "gate": g, "version": what}, {"command_sent": False}, "raised " + type(ex).__name__)
     ctx.traces += n
-    ctx.stage("versions.G", kind="spec->code", vectors=n)
+    ctx.stage("versions.G", kind="spec->code", vectors=n, versionless_gate_calls=2 * len(gates))
 
 
 def run(ctx):
@@ -70,13 +85,15 @@ def run(ctx):
     ctx.run_tlc("e1.connect", "EBB3LinkMC", "EBB3Link_c15.cfg" if q else "EBB3Link_c15_deep.cfg", coverage=q)
     ctx.run_tlc("e1.replug", "EBB3LinkMC", "EBB3Link_c15r.cfg")        # the environment swaps the device between connects
     versions_stage(ctx)
+    L.check_dev_versions()
+    c05.g_scripts(ctx, FOCUS, "gen_versions", "EBB3Link_gen15v.cfg", 2, False)        # the gate at its edge: 3.0.2, 3.0.1, 3.0.10, 10.0.0, 2.10.9
     c05.g_scripts(ctx, FOCUS, "gen_connect", "EBB3Link_gen15.cfg", 3, False, every=6 if q else 1)
     c05.g_scripts(ctx, FOCUS, "gen_replug", "EBB3Link_gen15r.cfg", 3, False, every=5 if q else 1)      # the device is swapped between connects
     c05.v_histories(ctx, FOCUS, 90 if q else 4000, 12, 0.08, 15, devs=ALL_DEVS, start_connected=False,
                     alphabet=["connect", "connect", "connect", "disconnect"] + L.ALL_METHODS)
     ctx.exhaustive = True
     ctx.trusted += ["TLC 1.8", "harness/ebb3lib.py ScriptedPort device kinds and the stubbed serial.Serial / comports", "ebbfake.LegacyOKPort", "vlib parser"]
-    ctx.assumptions += ["device kinds: supported EBB answering the first or only the second probe, EBB with firmware 2.8.1, non-EBB text, silent, unopenable, "
+    ctx.assumptions += ["device kinds: supported EBB answering the first or only the second probe, EBBs with firmware 2.8.1 / 3.0.1 / 2.10.9 (too old) and 3.0.2 / 3.0.10 / 10.0.0 (supported), an EBB line without version, a foreign banner containing the letters, non-EBB text, silent, unopenable, "
                         "not enumerated, raising on the probe read; no fault is injected into the CU,10,1 step of the handshake",
                         "an identification line always carries 'Firmware Version a.b.c' (a device saying EBB without a version is outside the statement)"]
     return ctx.finish(
